@@ -121,6 +121,7 @@ func (lb *LoadBalancer) DrainAll(timeout time.Duration) {
 
 func (lb *LoadBalancer) ServeHTTP(w http.ResponseWriter, r *http.Request) {
 	target, req, err := lb.claimTarget(r)
+	verifPoint("lb.claimed", r, err)
 	if err != nil {
 		SetErrorResponse(w, r, http.StatusServiceUnavailable, nil)
 		return
